@@ -188,9 +188,14 @@ class HbScenario(cmdscn.CmdScenario):
             # a delivered heartbeat is recorded: it is the moment the
             # silence of this action is measured from (also when it arrives
             # before the first-heartbeat grace period is over)
+            listed = json.dumps(getattr(choice.obj, 'kwargs', None) or {},
+                                default=str) + (choice.info or '')
             for a in post['action_executions_v2']:
                 p = pre_a.get(a['id'])
+                # (only the actions the message names: one created after
+                # the sender looked still has its grace deadline)
                 if p and p['state'] == 'RUNNING' and a['state'] == 'RUNNING' \
+                        and str(a['id']) in listed \
                         and hb.get(a['id'], (None,))[0] != now:
                     v.append('heartbeat for running action %s processed at '
                              't=%d but its recorded last heartbeat is t=%s'
